@@ -400,7 +400,20 @@ func GenBankParser(state *pars.State, result *pars.Result) error {
 		Region:    nil,
 	}, Origin: NewOrigin(nil)}
 
-	genbankOriginParser := makeGenbankOriginParser(length)
+	// The ORIGIN block ends the record: anything but the terminator after the
+	// declared number of residues means that the declared length is wrong.
+	sawOrigin := false
+	originParser := makeGenbankOriginParser(length)
+	genbankOriginParser := func(gb *GenBank, depth int) pars.Parser {
+		parser := originParser(gb, depth)
+		return func(state *pars.State, result *pars.Result) error {
+			err := parser(state, result)
+			if err == nil {
+				sawOrigin = true
+			}
+			return err
+		}
+	}
 
 	generators := []genbankSubparser{
 		genbankDefinitionParser,
@@ -426,6 +439,9 @@ func GenBankParser(state *pars.State, result *pars.Result) error {
 	end := pars.Seq("//", pars.EOL)
 
 	for end(state, result) != nil {
+		if sawOrigin {
+			return pars.NewError("expected `//` after the sequence", state.Position())
+		}
 		if err := parser(state, result); err != nil {
 			if dig(err) != errGenBankExtra {
 				return err
